@@ -53,6 +53,7 @@ BUSCALLS = {
     'OtherIface': ('GetId', None, None, BPATH, 'org.freedesktop.DBus.Monitoring'),
     'Ping': ('Ping', None, None, BPATH, 'org.freedesktop.DBus.Peer'),
     'ReservedName': ('RequestName', 'su', [':1.1', 0], BPATH, BUS),
+    'OwnBusName': ('RequestName', 'su', [BUS, 4], BPATH, BUS),
     'UserOfSelf': ('GetConnectionUnixUser', 's', None, BPATH, BUS),
     'UserOfNobody': ('GetConnectionUnixUser', 's', ['org.ex.Nobody'], BPATH, BUS),
 }
